@@ -746,6 +746,9 @@ def label_key(key, labels, rng_tag):
             return None, False
         if (a is not None and not 0 <= a < n) or (b is not None and not 0 <= b < n):
             return None, False
+        # a label that IS None cannot be written as a slice endpoint (slice(None, x) is the open start): no label form
+        if (a is not None and labels[a] is None) or (b is not None and labels[b] is None):
+            return None, False
         return slice(None if a is None else labels[a], None if b is None else labels[b], st), True
     return None, False
 
